@@ -111,8 +111,35 @@ func TestRefSelf(t *testing.T) {
 		t.Fatalf("kx S2 %x", s2A)
 	}
 	// group sanity
-	if !cv.BaseMul(cv.N).Inf {
+	if !cv.BaseMul(cv.N).Inf || !cv.MulAffine(cv.G(), cv.N).Inf {
 		t.Fatalf("nG != inf")
+	}
+	// fast Jacobian Mul == definitional affine Mul on a spread of scalars and points
+	x := new(big.Int).Set(d)
+	pt := P
+	for i := 0; i < 300; i++ {
+		x.Mul(x, x).Add(x, big.NewInt(int64(i))).Mod(x, new(big.Int).Lsh(cv.N, 2))
+		kk := new(big.Int).Set(x)
+		switch i % 6 {
+		case 0:
+			kk = big.NewInt(int64(i / 6))
+		case 1:
+			kk = new(big.Int).Sub(cv.N, big.NewInt(int64(i/6)))
+		case 2:
+			kk = new(big.Int).Add(cv.N, big.NewInt(int64(i/6)))
+		}
+		a, b := cv.Mul(pt, kk), cv.MulAffine(pt, kk)
+		if !a.Equal(b) {
+			t.Fatalf("Jacobian Mul != affine Mul for k=%x", kk)
+		}
+		if !b.Inf {
+			pt = b
+		}
+	}
+	// invalid-curve use: order-2 point on y^2=x^3+ax+b' (formulas never use b)
+	q2 := rsm2.Point{X: big.NewInt(12345), Y: new(big.Int)}
+	if !cv.Mul(q2, big.NewInt(7)).Equal(q2) || !cv.Mul(q2, big.NewInt(8)).Inf || !cv.MulAffine(q2, big.NewInt(7)).Equal(q2) {
+		t.Fatalf("order-2 point arithmetic")
 	}
 	// GCM vs crypto/cipher over AES for many nonce sizes
 	ak := unhex("000102030405060708090a0b0c0d0e0f")
